@@ -17,7 +17,8 @@ use crate::util::*;
 pub fn md_parser() -> MarkdownParser {
     MarkdownParser::new(
         Arc::new(ExpectationMaker::new(RuleRegistry::default())),
-        DEFAULT_MARKDOWN_LANGUAGES,
+        // the languages that mark a test block are a parameter (--markdown-languages): scrut and sh, as in the spec
+        &[DEFAULT_MARKDOWN_LANGUAGES[0], "sh"],
         None,
     )
 }
